@@ -629,3 +629,87 @@ func H_C13_array2d(n0, n1 int) {
 		}
 	}
 }
+
+// H_C05_postProcessResumed(n0, n1, moved): post-processing of a two-dimensional
+// array of files (rows of n0 and n1) is resumed after an earlier run was
+// killed between moving file number `moved` to outs/ and putting the link back
+// into the stage's files/ directory (the _outs still names the old path).
+//
+//	C05/C13: the resumed run reports the same outputs as an uninterrupted one:
+//	     every file - also the one which had already been moved - is
+//	     designated under outs/ with its identity.
+func H_C05_postProcessResumed(n0, n1, moved int) {
+	ps := vp2dGraph()
+	vpFS = map[string]*vpNode{}
+	vpWritten = nil
+	for _, d := range []string{"/ps", "/ps/P", "/ps/P/S", "/ps/P/S/fork0", vpFilesDir, "/ps/outs", "/ps/outs/grid", "/ps/outs/grid/0", "/ps/outs/grid/1"} {
+		vpFS[d] = &vpNode{kind: 2}
+	}
+	ns := []int{n0, n1}
+	if moved >= n0+n1 {
+		return
+	}
+	var inodes [][]int
+	doc := []byte(`{"grid":[`)
+	k := 0
+	for r, n := range ns {
+		if r > 0 {
+			doc = append(doc, ',')
+		}
+		doc = append(doc, '[')
+		row := make([]int, n)
+		for c := 0; c < n; c++ {
+			p := vpFilesDir + "/g" + string(rune('0'+r)) + string(rune('0'+c))
+			row[c] = 700 + 10*r + c
+			if k == moved {
+				// the interrupted run got as far as the rename
+				vpFS["/ps/outs/grid/"+string(rune('0'+r))+"/"+string(rune('0'+c))+".txt"] = &vpNode{kind: 1, inode: row[c]}
+			} else {
+				vpFS[p] = &vpNode{kind: 1, inode: row[c]}
+			}
+			k++
+			if c > 0 {
+				doc = append(doc, ',')
+			}
+			doc = append(doc, (`"` + p + `"`)...)
+		}
+		inodes = append(inodes, row)
+		doc = append(doc, ']')
+	}
+	doc = append(doc, `]}`...)
+	vpOutsRaw = doc
+	ps.node.forks[0].postProcess(context.Background())
+	verifCover("interrupted post-processing resumed")
+	if vpWritten == nil {
+		verifAssert(false, "C13: the rewritten _outs is stored")
+		return
+	}
+	out, merr := vpWritten.MarshalJSON()
+	if merr != nil {
+		verifAssert(false, "C13: the rewritten _outs encodes")
+		return
+	}
+	var top LazyArgumentMap
+	var rows []json.RawMessage
+	if vjUnmarshal(out, &top) != nil || vjUnmarshal(top["grid"], &rows) != nil || len(rows) != 2 {
+		verifAssert(false, "C13: the rewritten _outs has the shape of the outputs")
+		return
+	}
+	for r := range ns {
+		var cells []json.RawMessage
+		if vjUnmarshal(rows[r], &cells) != nil || len(cells) != ns[r] {
+			verifAssert(false, "C13: the rewritten _outs has the shape of the outputs")
+			return
+		}
+		for c := range cells {
+			q, isStr := vpUnquote(vjTrim(cells[c]))
+			verifAssert(isStr, "C05: a file which an interrupted post-processing run had already moved to outs/ is still reported (not null) by the resumed run")
+			if !isStr {
+				continue
+			}
+			_, n := vpResolve(path.Clean(q))
+			verifAssert(n != nil && n.kind == 1 && n.inode == inodes[r][c], "C05/C13: the resumed run designates the same file as an uninterrupted one")
+			verifAssert(strings.HasPrefix(q, "/ps/outs/"), "C05/C13: the resumed run reports the file under outs/")
+		}
+	}
+}
